@@ -696,7 +696,6 @@ Variable NO : numops K.
 Notation "0" := (n0 K NO).
 Notation "1" := (n1 K NO).
 Notation kadd := (nadd K NO).
-Hypothesis add0l : forall x, kadd 0 x = x.
 
 (** the Jordan-Wigner matrix of m^+ is the transpose of that of m (the entries are 0, 1, -1: real), for every
     monomial m; in particular  c_i = (c^+_i)^T  and  c^+_j c_i = (c^+_i c_j)^T *)
